@@ -189,15 +189,17 @@ type gState struct {
 	pubSeen      bool
 }
 
+var stackBuf = make([]byte, 256<<10) // only the driver's main goroutine looks at goroutine states
+
 func goroutineStates() gState {
-	buf := make([]byte, 1<<20)
+	var buf []byte
 	for {
-		n := runtime.Stack(buf, true)
-		if n < len(buf) {
-			buf = buf[:n]
+		n := runtime.Stack(stackBuf, true)
+		if n < len(stackBuf) {
+			buf = stackBuf[:n]
 			break
 		}
-		buf = make([]byte, 2*len(buf))
+		stackBuf = make([]byte, 2*len(stackBuf))
 	}
 	st := gState{writersQuiet: true}
 	for _, blk := range strings.Split(string(buf), "\n\n") {
